@@ -17,6 +17,11 @@ Theorem C17_env_stat_follows_links : forall f p n, stat f p = Some n -> is_link_
 Proof. exact stat_not_link. Qed.
 Print Assumptions C17_env_stat_follows_links.
 
+(* on a resolved path the kernel's walk (os.stat: exists / is_file / is_dir) sees the node itself *)
+Theorem C17_env_stat_of_resolved : forall f p q n, realpath f p = Some q -> stat f q = Some n -> lstat f q = Some n.
+Proof. exact (fun f p q n H => stat_resolved f q n (realpath_link_free f p q H) (realpath_plain f p q H)). Qed.
+Print Assumptions C17_env_stat_of_resolved.
+
 (* str(Path) and back: the resolved path handed to analyze_python_file is the path that was resolved *)
 Theorem C17_env_path_roundtrip : forall q, all_good q -> path_comps (render q) = q.
 Proof. exact path_comps_render. Qed.
@@ -32,7 +37,7 @@ Theorem C17_env_sound_file : forall f cc pc tokens i fl,
   fl_inspect fl = false /\ fl_skip1 fl = false /\
   exists tok q sz t,
     nth_error tokens i = Some tok /\ realpath f (pjoin (cwd_of cc pc) tok) = Some q /\ link_free f q /\ all_good q /\
-    stat f q = Some (NFile sz (Some t)) /\ suffix_ok (last q []) = true /\ (sz <= 100000)%N /\ visit true false t = [] /\
+    lstat f q = Some (NFile sz (Some t)) /\ suffix_ok (last q []) = true /\ (sz <= 100000)%N /\ visit true false t = [] /\
     py_syspath0 f (cwd_of cc pc) tokens = SP_dir (removelast q) /\
     forall r, In r (roots t) -> shadowed f (removelast q) r = false.
 Proof. exact env_sound_file. Qed.
